@@ -215,6 +215,19 @@ impl Store {
             };
             Some(show_entries(r))
          },
+         // `c_iter_all` inside a rayon pool of the given size (the parallel whole-index iterators split their work by the CURRENT pool)
+         "callin" => {
+            let n = int(2)? as usize;
+            self.pool(n);
+            let pool = &self.pools[&n];
+            let r: Vec<(K, V)> = match self.objs.get(&id(1)?)? {
+               Obj::CRel(m) => pool.install(|| m.c_iter_all().flat_map(|(k, vs)| vs.map(move |v| (*k, *v))).collect()),
+               Obj::CFull(m) => pool.install(|| m.c_iter_all().flat_map(|(k, vs)| vs.map(move |v| (*k, *v))).collect()),
+               Obj::CLat(m) => pool.install(|| m.c_iter_all().flat_map(|(k, vs)| vs.map(move |v| (*k, *v))).collect()),
+               _ => return None,
+            };
+            Some(show_entries(r))
+         },
          // `RelIndexRead::is_empty` ("definitely empty": generated code skips a rule when it answers true)
          "empty" => {
             let r = std::panic::catch_unwind(std::panic::AssertUnwindSafe(|| match self.objs.get(&id(1)?)? {
